@@ -126,6 +126,9 @@ class SymWorld(World):
         z = SCx.of(z)
         return z.abs2()
 
+    def exp(self, x):
+        return arrays.e_exp(x) if isinstance(x, (SNum, SCx)) else math.exp(x)
+
     def cos(self, x):
         return arrays.e_cos(core.as_num(x)) if isinstance(x, SNum) else math.cos(x)
 
@@ -545,6 +548,9 @@ class ConcWorld(World):
 
     def abs2(self, z):
         return (z * rnp.conj(z)).real
+
+    def exp(self, x):
+        return math.exp(x)
 
     def cos(self, x):
         return math.cos(x)
